@@ -289,10 +289,44 @@ func fnPkg(f *ssa.Function) *types.Package {
 	return nil
 }
 
-// AllFns: every function of the program (ssautil.AllFunctions).
+// AllFns: every function of the program: ssautil.AllFunctions (linker-style reachability) plus every function and every
+// method of every named type declared in a module package, reachable or not, with their anonymous functions.
 func (p *Prog) AllFns() map[*ssa.Function]bool {
 	if p.allFns == nil {
 		p.allFns = ssautil.AllFunctions(p.SSA)
+		var add func(f *ssa.Function)
+		add = func(f *ssa.Function) {
+			if f == nil || p.allFns[f] {
+				return
+			}
+			p.allFns[f] = true
+			for _, af := range f.AnonFuncs {
+				add(af)
+			}
+		}
+		for _, sp := range p.SPkg {
+			for _, mem := range sp.Members {
+				switch m := mem.(type) {
+				case *ssa.Function:
+					add(m)
+				case *ssa.Type:
+					for _, T := range []types.Type{m.Type(), types.NewPointer(m.Type())} {
+						ms := p.SSA.MethodSets.MethodSet(T)
+						for i := 0; i < ms.Len(); i++ {
+							if fn := p.SSA.MethodValue(ms.At(i)); fn != nil {
+								add(fn)
+							}
+						}
+					}
+				}
+			}
+		}
+		// anonymous functions of already known functions
+		for f := range p.allFns {
+			for _, af := range f.AnonFuncs {
+				add(af)
+			}
+		}
 	}
 	return p.allFns
 }
